@@ -170,6 +170,144 @@ def gen(seed, tier, prop):
     return lines
 
 
+# ------------------------------------------------------------------ boolean sub-stream of C17 (oracle only)
+
+def rand_bstmt(rng, nv, nb):
+    """a boolean statement over the integer variables v0..v(nv-1) and the booleans b0..b(nb-1)"""
+    B = lambda: rng.randrange(nb)
+    k = rng.choices(["bassign", "bcopy", "bnot", "bbin", "bselect", "bassume", "bnassume", "bhavoc", "bzext"],
+                    [9, 3, 3, 6, 3, 2, 1, 2, 3])[0]
+    if k == "bassign":
+        c = gen_cst(rng, nv, small=True, maxterms=2)
+        if rng.random() < 0.08:
+            c = (rng.choice(["eq", "le"]), ([], rng.choice([0, 0, 1, -1])))          # b := true / false
+        return "bassign %d %s" % (B(), fmt_cst(c))
+    if k in ("bcopy", "bnot"):
+        return "%s %d %d" % (k, B(), B())
+    if k == "bbin":
+        return "bbin %s %d %d %d" % (rng.choice(["and", "or", "xor"]), B(), B(), B())
+    if k == "bselect":
+        return "bselect %d %d %d %d" % (B(), B(), B(), B())
+    if k == "bzext":
+        return "bzext %d %d" % (rng.randrange(nv), B())
+    return "%s %d" % (k, B())
+
+
+def true_bassert(rng, nv, fresh, aid):
+    """a group of statements ending in a boolean assertion that holds whenever it is reached, on booleans
+    b<fresh>, b<fresh+1>, b<fresh+2> that nothing else in the program writes.  -> (statements, booleans used)"""
+    x = rng.randrange(nv)
+    k1 = rng.choice([-5, -1, 0, 1, 2, 7]); k0 = k1 - rng.choice([0, 0, 1, 3])
+    b, b2, b3 = fresh, fresh + 1, fresh + 2
+    ge = lambda k: "C le E 1 -1 %d %d" % (x, k)              # x >= k
+    r = rng.randrange(6)
+    if r == 0:      # assume x >= k1 ; b := (x >= k0) ; assert b           (k0 <= k1)
+        return ["assume " + ge(k1), "bassign %d %s" % (b, ge(k0)), "bassert %d %d" % (b, aid)], 1
+    if r == 1:      # b := C ; assume b ; b2 := b ; assert b2
+        c = fmt_cst(gen_cst(rng, nv, small=True, maxterms=2))
+        return ["bassign %d %s" % (b, c), "bassume %d" % b, "bcopy %d %d" % (b2, b), "bassert %d %d" % (b2, aid)], 2
+    if r == 2:      # b := C ; b2 := not b ; assume not b2 ; assert b
+        c = fmt_cst(gen_cst(rng, nv, small=True, maxterms=2))
+        return ["bassign %d %s" % (b, c), "bnot %d %d" % (b2, b), "bnassume %d" % b2, "bassert %d %d" % (b, aid)], 2
+    if r == 3:      # b := C ; b2 := not b ; b3 := b or / xor b2 ; assert b3   (tautology)
+        c = fmt_cst(gen_cst(rng, nv, small=True, maxterms=2))
+        return ["bassign %d %s" % (b, c), "bnot %d %d" % (b2, b), "bbin %s %d %d %d" % (rng.choice(["or", "xor"]), b3, b, b2),
+                "bassert %d %d" % (b3, aid)], 3
+    if r == 4:      # b := true ; b2 := * ; b3 := b2 ? b : b ; assert b3
+        return ["bassign %d C eq E 0 0" % b, "bhavoc %d" % b2, "bselect %d %d %d %d" % (b3, b2, b, b), "bassert %d %d" % (b3, aid)], 3
+    # assume x >= k1 ; b := (x < k0) ; b2 := not b ; assert b2
+    return ["assume " + ge(k1), "bassign %d C lt E 1 1 %d %d" % (b, x, -k0), "bnot %d %d" % (b2, b), "bassert %d %d" % (b2, aid)], 2
+
+
+def gen_bool_cfg(rng, big=False):
+    """the CFG shapes of gen_cfg with blocks that mix numerical and boolean statements.
+    -> (nb, nv, ex, blocks, edges, extra, ids of all assertions, ids of the assertions that hold by construction)"""
+    nblk, nv, ex, _blocks, edges, _extra, _na = gen_cfg(rng, big)
+    nbool = rng.choice([1, 2, 2, 3, 3, 4])
+    fresh = nbool + 1                       # b<nbool> = the guard (below); b<nbool+1>.. = booleans of true_bassert groups
+    ids, sure = [], []
+    blocks = []
+    guard = rng.random() < 0.5              # entry block: g := C ; assume g  -- g is never written again
+    for b in range(nblk):
+        ss = []
+        for _ in range(rng.choice([0, 1, 1, 2, 2, 3, 4, 5])):
+            ss.append(rand_bstmt(rng, nv, nbool) if rng.random() < 0.6 else rand_stmt(rng, nv))
+        for _ in range(rng.choice([0, 0, 1, 1, 2])):               # assertions that may fail
+            aid = len(ids) + 1; ids.append(aid)
+            if rng.random() < 0.7:
+                a = "bassert %d %d" % (rng.randrange(nbool), aid)
+            else:
+                a = "assert %s %d" % (fmt_cst(gen_cst(rng, nv, kinds=("le", "le", "eq", "ne", "lt"), small=True, maxterms=2)), aid)
+            ss.insert(rng.randint(0, len(ss)), a)
+        if rng.random() < 0.45:                                     # a group that ends in an assertion that holds
+            aid = len(ids) + 1; ids.append(aid); sure.append(aid)
+            grp, used = true_bassert(rng, nv, fresh, aid)
+            if rng.random() < 0.5:
+                fresh += used
+            pos = rng.randint(0, len(ss))
+            ss[pos:pos] = grp
+        if guard and rng.random() < 0.4:                            # the guard holds wherever it is read
+            aid = len(ids) + 1; ids.append(aid); sure.append(aid)
+            ss.insert(rng.randint(0, len(ss)), "bassert %d %d" % (nbool, aid))
+        if guard and rng.random() < 0.15:
+            ss.insert(rng.randint(0, len(ss)), rng.choice(["bassume %d" % nbool, "bcopy %d %d" % (rng.randrange(nbool), nbool),
+                                                          "bzext %d %d" % (rng.randrange(nv), nbool)]))
+        if rng.random() < 0.08:
+            ss.insert(rng.randint(0, len(ss)), "unreachable")
+        blocks.append(ss)
+    if guard:
+        blocks[0][0:0] = ["bassign %d %s" % (nbool, fmt_cst(gen_cst(rng, nv, small=True, maxterms=1))), "bassume %d" % nbool]
+    extra = []
+    if ex >= 0 and rng.random() < 0.7:
+        vs = [str(v) for v in range(nv)] + ["b%d" % i for i in range(nbool)] * 2
+        rng.shuffle(vs)
+        vs = sorted(set(vs), key=vs.index)
+        nout = rng.randint(0, min(3, len(vs))) if rng.random() < 0.9 else 0
+        nin = rng.randint(0, min(2, len(vs) - nout))
+        extra.append(" ".join(("F %d %s %d %s" % (nin, " ".join(vs[nout:nout + nin]), nout, " ".join(vs[:nout]))).split()))
+    return nblk, nv, ex, blocks, edges, extra, ids, sure
+
+
+CORPUS_BOOL = [
+    # an assertion that holds is lowered: assume x >= 1 ; b := (x >= 0) ; assert b
+    "cfg 2 1 1 q=lower | F 0 1 0 | B 0 assume C le E 1 -1 0 1 ; bassign 0 C le E 1 -1 0 0 ; bassert 0 1 | B 1 arith add 0 0 k 1 | E 0 1 | L 1",
+    "cfg 2 1 1 q=pipe | F 0 1 0 | B 0 assume C le E 1 -1 0 1 ; bassign 0 C le E 1 -1 0 0 ; bassert 0 1 | B 1 arith add 0 0 k 1 | E 0 1 | L 1",
+    "cfg 2 1 1 q=lower | F 0 1 0 | B 0 assume C le E 1 -1 0 1 ; bassign 0 C le E 1 -1 0 0 ; bassert 0 1 | B 1 arith add 0 0 k 1 | E 0 1",
+    # one of two assertions lowered; a numerical and a boolean assertion in the same block
+    "cfg 3 2 2 q=lower | F 0 1 b1 | B 0 bassign 0 C le E 1 1 0 0 ; bassume 0 | B 1 bassert 0 1 ; bnot 1 0 ; assert C le E 1 1 0 0 2 | B 2 bnassume 1 ; bassert 0 3 | E 0 1 1 2 | L 1 2",
+    "cfg 3 2 2 q=pipe | F 0 1 b1 | B 0 bassign 0 C le E 1 1 0 0 ; bassume 0 | B 1 bassert 0 1 ; bnot 1 0 ; assert C le E 1 1 0 0 2 | B 2 bnassume 1 ; bassert 0 3 | E 0 1 1 2 | L 3",
+    # dead boolean assignments; a boolean that is live only through a later assume / assert / select / zext / output
+    "cfg 2 2 1 q=dce | F 0 1 1 | B 0 bassign 0 C le E 1 1 0 0 ; bassign 0 C le E 1 1 0 -5 ; bnot 1 0 ; bbin and 2 0 1 | B 1 bzext 1 0 | E 0 1",
+    "cfg 3 2 2 q=dce | B 0 bassign 0 C le E 1 1 0 0 ; bassign 1 C eq E 1 1 1 0 ; bhavoc 2 | B 1 bcopy 3 1 | B 2 bassume 0 | E 0 1 1 2",
+    "cfg 3 2 2 q=dce | B 0 bassign 0 C le E 1 1 0 0 ; bassign 1 C eq E 1 1 1 0 ; bhavoc 2 | B 1 bselect 3 2 0 1 | B 2 bassert 3 1 | E 0 1 1 2",
+    "cfg 3 2 2 q=dce | F 0 1 b3 | B 0 bassign 0 C le E 1 1 0 0 ; bassign 1 C eq E 1 1 1 0 ; bhavoc 2 | B 1 bselect 3 2 0 1 ; bbin xor 4 0 1 | B 2 bnassume 4 | E 0 1 0 2 1 2",
+    "cfg 2 1 1 q=dce | F 0 1 0 | B 0 bassign 0 C le E 1 1 0 0 ; bnot 0 0 ; bnot 0 0 | B 1 bzext 0 0 | E 0 1 1 0",
+    # chains that simplify merges
+    "cfg 4 2 3 q=simp | F 0 1 b1 | B 0 bassign 0 C le E 1 1 0 0 | B 1 bnot 1 0 ; bnassume 1 | B 2 bbin or 1 0 1 ; bassert 1 1 | B 3 bselect 1 0 1 0 | E 0 1 1 2 2 3",
+    "cfg 5 2 4 q=simp | F 0 1 b0 | B 0 bhavoc 0 | B 1 bassume 0 | B 2 bnassume 0 | B 3 bnot 0 0 | B 4 bzext 1 0 | E 0 1 0 2 1 3 3 4 2 4",
+    "cfg 4 1 3 q=pipe | F 0 1 b1 | B 0 bassign 0 C le E 1 1 0 0 ; bhavoc 2 | B 1 bnot 1 0 ; bnassume 1 | B 2 bbin or 1 0 1 ; bassert 1 1 ; bcopy 2 1 | B 3 bselect 1 0 1 0 | E 0 1 1 2 2 3 | L 1",
+]
+
+
+def gen_bool(seed, tier):
+    """programs that mix numerical and boolean statements for q = dce | simp | lower | pipe (judged by oracle_transform only)"""
+    rng = random.Random(seed * 31 + 1717)
+    lines = list(CORPUS_BOOL)
+    n = 170 if tier == "quick" else 4200
+    for i in range(n):
+        nblk, nv, ex, blocks, edges, extra, ids, sure = gen_bool_cfg(rng, big=(i % 7 == 0))
+        # L: as in the numerical stream any subset may be listed (an execution on which a listed assertion fails does not
+        # reach the exit, before or after); the assertions that hold by construction are listed more often than not
+        low = [a for a in ids if rng.random() < (0.7 if a in sure else 0.4)]
+        low = ["L " + " ".join(map(str, low))] if low else []
+        q = ["lower", "pipe", "dce", "simp"][i % 4] if i % 5 else rng.choice(["pipe", "lower"])
+        lines.append(fmt_case(nblk, nv, ex, blocks, edges, extra + (low if q in ("lower", "pipe") else []), [("q", q)]))
+        if i % 2 == 0:
+            q2 = "dce" if q in ("lower", "simp") else "simp"
+            lines.append(fmt_case(nblk, nv, ex, blocks, edges, extra, [("q", q2)]))
+    return lines
+
+
 # ------------------------------------------------------------------ parsing
 
 class Tok:
@@ -209,7 +347,48 @@ def parse_stmt(t):
         return ("select", x, c, e1, e2)
     if op == "unreachable":
         return ("unreachable",)
+    # boolean statements: a boolean variable b<i> is the store index BV(i) = -1 - i (counted from the end of the store)
+    if op == "bassign":
+        x = BV(k.nexti()); return ("bassign", x, p_cst(k))
+    if op in ("bcopy", "bnot"):
+        return (op, BV(k.nexti()), BV(k.nexti()))
+    if op == "bbin":
+        f = k.next()
+        if f not in ("and", "or", "xor"):
+            raise ValueError(f)
+        return ("bbin", f, BV(k.nexti()), BV(k.nexti()), BV(k.nexti()))
+    if op == "bselect":
+        return ("bselect", BV(k.nexti()), BV(k.nexti()), BV(k.nexti()), BV(k.nexti()))
+    if op in ("bassume", "bnassume", "bhavoc"):
+        return (op, BV(k.nexti()))
+    if op == "bassert":
+        x = BV(k.nexti()); return ("bassert", x, k.nexti())
+    if op == "bzext":
+        x = k.nexti(); return ("bzext", x, BV(k.nexti()))
     raise ValueError(op)
+
+
+def BV(i):
+    """store index of the boolean variable b<i>: the booleans are the last entries of the store, b0 the very last"""
+    if i < 0:
+        raise ValueError("boolean variable number %d" % i)
+    return -1 - i
+
+
+def bools_of(st):
+    """numbers of the boolean variables of a parsed statement"""
+    k = st[0]
+    if k in ("bassign", "bassume", "bnassume", "bhavoc", "bassert"): return {-1 - st[1]}
+    if k in ("bcopy", "bnot"): return {-1 - st[1], -1 - st[2]}
+    if k == "bbin": return {-1 - v for v in st[2:5]}
+    if k == "bselect": return {-1 - v for v in st[1:5]}
+    if k == "bzext": return {-1 - st[2]}
+    return set()
+
+
+def pvar(t):
+    """variable of an F section: integer variable <i> or boolean variable b<i>"""
+    return BV(int(t[1:])) if t.startswith("b") else int(t)
 
 
 def split_stmts(toks):
@@ -239,6 +418,7 @@ def parse(line):
     P.succ = {i: [] for i in range(nb)}
     P.pred = {i: [] for i in range(nb)}
     P.entry, P.exit, P.outs, P.lower = 0, (ex if ex >= 0 else None), [], []
+    fbools = set()
     for s in secs[1:]:
         if not s: continue
         if s[0] == "B":
@@ -252,10 +432,17 @@ def parse(line):
                 if a not in P.pred[b]: P.pred[b].append(a)
         elif s[0] == "F":
             k = Tok(s[1:]); nin = k.nexti()
-            for _ in range(nin): k.nexti()
-            P.outs = [k.nexti() for _ in range(k.nexti())]
+            ins = [pvar(k.next()) for _ in range(nin)]
+            P.outs = [pvar(k.next()) for _ in range(k.nexti())]
+            fbools = {-1 - v for v in ins + P.outs if v < 0}
         elif s[0] == "L":
             P.lower = list(map(int, s[1:]))
+    bs = set(fbools)
+    for b in P.blocks:
+        for st in P.blocks[b]:
+            bs |= bools_of(st)
+    P.nb = max(bs) + 1 if bs else 0                  # number of boolean variables (extra 0/1 entries of the store)
+    P.bool_asserts = {st[2] for b in P.blocks for st in P.blocks[b] if st[0] == "bassert"}
     return P
 
 
@@ -336,6 +523,27 @@ def step_stmt(st, s, havoc, data_only=False):
         s = list(s); s[st[1]] = havoc(st[1]); return ("ok", s, None)
     if k == "select":
         s = list(s); s[st[1]] = ev(st[3], s) if holds(st[2], s) else ev(st[4], s); return ("ok", s, None)
+    if k == "bassign":
+        s = list(s); s[st[1]] = 1 if holds(st[2], s) else 0; return ("ok", s, None)
+    if k == "bcopy":
+        s = list(s); s[st[1]] = s[st[2]]; return ("ok", s, None)
+    if k == "bnot":
+        s = list(s); s[st[1]] = 1 - s[st[2]]; return ("ok", s, None)
+    if k == "bbin":
+        a, b = s[st[3]], s[st[4]]
+        s = list(s); s[st[2]] = {"and": a & b, "or": a | b, "xor": a ^ b}[st[1]]; return ("ok", s, None)
+    if k == "bselect":
+        s = list(s); s[st[1]] = s[st[3]] if s[st[2]] else s[st[4]]; return ("ok", s, None)
+    if k in ("bassume", "bnassume"):
+        if data_only or s[st[1]] == (1 if k == "bassume" else 0): return ("ok", s, ("assume",))
+        return ("stuck", "assume")
+    if k == "bassert":
+        if data_only or s[st[1]] == 1: return ("ok", s, ("assert", st[2], True))
+        return ("fail", st[2])
+    if k == "bhavoc":
+        s = list(s); s[st[1]] = havoc(st[1]) & 1; return ("ok", s, None)
+    if k == "bzext":
+        s = list(s); s[st[1]] = s[st[2]]; return ("ok", s, None)
     return ("stuck", "unreachable")
 
 
@@ -490,6 +698,9 @@ def oracle_crawl(line, ans, rng):
 
 # ------------------------------------------------------------------ C17: differential execution
 
+STATS = None     # set to a dict by checks/C17.py to count what the sampled executions of oracle_transform exercised
+
+
 def hv_fun(seed):
     def h(x, nev):
         return POOL[zlib.crc32(("%d/%d/%d" % (seed, x, nev)).encode()) % len(POOL)]
@@ -616,11 +827,21 @@ def oracle_transform(line, ans, rng):
     r0 = random.Random(zlib.crc32(line.encode()))
     def count(T, t):
         return sum(x == t for b in T.text for x in T.text[b])
-    for t in range(24):
+    for t in range(24 if not P.nb else 40):
         s0 = [r0.choice(POOL) for _ in range(P.nv)]
+        if P.nb:
+            s0 += [r0.choice([0, 1]) for _ in range(P.nb)]      # booleans: the last entries of the store (see BV)
         seed = r0.randrange(1 << 30)
         # original leads
         st, obs, seq, fin, _ = run_leader(P, list(s0), seed)
+        if STATS is not None:
+            STATS["executions"] = STATS.get("executions", 0) + 1
+            if st == "done":
+                STATS["exit_reaching"] = STATS.get("exit_reaching", 0) + 1
+                for e in obs:
+                    if e[0] == "assert" and e[1] in P.bool_asserts:
+                        kk = "bool_assert_passed_lowered" if e[1] in lowered else "bool_assert_passed_kept"
+                        STATS[kk] = STATS.get(kk, 0) + 1
         if st == "done":
             st2, obs2, stuck = run_follower(Q, list(s0), seed, seq, set(P.blocks))
             want = lower_obs(obs, lowered)
@@ -669,6 +890,19 @@ def nontrivial(line, ans):
         return (nstm(ans) != nstm(line) or ans.count(" | b") != len(P.blocks)
                 or len(re.findall(r"\bassert\b", ans)) != len(re.findall(r"\bassert\b", line)))
     return False
+
+
+BOOL_KINDS = r"\b(bassign|bcopy|bnot|bbin|bselect|bassume|bnassume|bassert|bhavoc|bzext)\b"
+
+
+def nontrivial_bool(line, ans):
+    """the program has boolean statements and the transformation changed it (statement, assertion or block count)"""
+    if not re.search(BOOL_KINDS, line) or not ans.startswith("entry="):
+        return False
+    nstm = lambda t: len(re.findall(r"\b(assign|arith|bit|assume|assert|havoc|select|unreachable)\b|" + BOOL_KINDS, t))
+    nas = lambda t: len(re.findall(r"\bb?assert\b", t))
+    P = parse(line)
+    return nstm(ans) != nstm(line) or ans.count(" | b") != len(P.blocks) or nas(ans) != nas(line)
 
 
 def key(line):
